@@ -101,6 +101,7 @@ type c04Result struct {
 	EarlyExit  bool        `json:"early_exit"`  // Connect returned before the peer closed
 	Sent       int         `json:"client_frames"`
 	ErrText    string      `json:"connect_err_text"` // for diagnosis only, never compared
+	MS         int64       `json:"ms"`               // wall time of the scenario (diagnosis only)
 }
 
 func hdr4(h Header) [4]uint32 {
@@ -445,17 +446,19 @@ stepLoop:
 				// a caller whose reply was in this chunk gets time to pick it up before the
 				// script goes on (send() chooses at random between a ready reply and a closed
 				// client, which is C09's subject, not C04's)
+				budget := 150 // x 2ms for the whole chunk: a delivered reply is picked up at once
 				for _, id := range ids {
 					for _, j := range callerOrder {
 						cr := callers[j]
-						for w := 0; w < 400; w++ {
+						for {
 							obs.mu.Lock()
 							waitFor := !cr.Returned && cr.ReqID == int64(id)
 							obs.mu.Unlock()
-							if !waitFor {
+							if !waitFor || budget <= 0 {
 								break
 							}
-							time.Sleep(5 * time.Millisecond)
+							budget--
+							time.Sleep(2 * time.Millisecond)
 						}
 					}
 				}
@@ -540,7 +543,9 @@ func TestVerifC04(t *testing.T) {
 			w.Flush()
 			continue
 		}
+		t0 := time.Now()
 		r := runC04(sc)
+		r.MS = time.Since(t0).Milliseconds()
 		if r.Stalled != "" {
 			stalls++
 		}
